@@ -88,9 +88,13 @@ def cases(ctx):
     for lock in ("none", "none", "none", "real"):
         out.append({"backend": "s3cas", "topology": "separate", "clock": "real", "actors": 2, "kinds": ["append", "append"], "lock": lock,
                     "drop_hint": True, "no_model": True})
-    for k in range(0, 60, 1 if ctx.thorough else 3):
+    for k in range(0, 60, 1 if (ctx.thorough or ctx.intensify) else 3):
         out.append({"backend": "s3cas", "topology": "separate", "clock": "real", "actors": 2, "kinds": ["append", "append"], "lock": "none",
                     "drop_hint": True, "no_model": True, "chooser": _other_commits_after_k(k)})
+    # hint present, no exclusion, scheduling points at S3 request granularity: the other committer's whole commit before each request
+    for k in range(0, 90, 1 if (ctx.thorough or ctx.intensify) else 3):
+        out.append({"backend": "s3cas", "topology": "separate", "clock": "real", "actors": 2, "kinds": ["append", "append"], "lock": "none",
+                    "gate_requests": True, "no_model": True, "chooser": _other_commits_after_k(k)})
     # a committer whose fencing check fails must report a conflict
     out.append({"backend": "s3cas", "topology": "separate", "clock": "real", "actors": 2, "kinds": ["append", "append"], "lock": "none",
                 "held_script": {1: [False, True, True]}, "model_cfg": NOLOCK_CFG})
